@@ -83,7 +83,7 @@ def simplify_cases(draw, tier):
                 rhs = ['const', c] if rhs[0] == 'const' else ['lin', rhs[1], c]
             system.append(['rel', src[1], cmp, rhs])
     scheme = draw(E.naming_schemes(n))
-    style = {'minus': draw(st.booleans()), 'unit': draw(st.booleans())}
+    style = {'minus': draw(st.booleans()), 'unit': draw(st.booleans()), 'opspace': draw(st.integers(0, 2)) == 0}
     # solve() falls back to _solve_nonlinear whenever it cannot solve for either of the two leading
     # candidate variables of a line (absent from it: common with cycle=True / a long target; zero
     # coefficient; no solution); that builds permutations(x0..xmax) and does not return for max >= 10.
@@ -434,6 +434,7 @@ def run_simplify(case, ctx):
     ctx.label(*sorted(kinds))
     if opts['target'] is not None: ctx.label('opt:target')
     if opts['cycle']: ctx.label('opt:cycle')
+    if case['style'].get('opspace') and any(E.subtrees(r, 'div') or E.subtrees(r, 'mul') for r in system): ctx.label('blanks-around-operators')
     ctx.label('opt:all' if opts['all'] else 'opt:one')
     for a in range(len(system)):
         for b in range(a):
